@@ -236,13 +236,14 @@ prop("C19",
 
 
 prop("C30",
-     units=["styles"],
+     units=["styles", "cols", "rows", "delegates"],
      level="proof",
      claim="the style table against the abstract view index |-> Style: the index get_style_index_or_create / create_new_style answers for a style reads back "
            "(Styles::get_style) as exactly that style — alignment, number format text, fill, font, border, quote prefix — and no call changes what any existing index "
            "reads back (keeps_views), so cells with different styles never come to share one and a style set on one cell cannot alter another; get_style_index only "
            "reuses anonymous formats; the quote-prefix variants answer the same style with only that flag changed; Model::set_cell_style stores an index that reads back "
-           "as the style set; the representation invariant (component indices exist, custom number-format ids fresh and distinct) is preserved by every function under contract",
+           "as the style set; a style index assigned to a column or a row is what that column / row reads back and no other line's (whole-view contracts of units cols / rows, shared with C29); "
+           "the representation invariant (component indices exist, custom number-format ids fresh and distinct) is preserved by every function under contract",
      assumptions=["A-eq / A-clone: derived PartialEq / Clone of Font, Fill, Border, Alignment, Style decide / preserve value equality (opaque components)",
                   "number_format.rs table functions (get_default_num_fmt_id, get_num_fmt, get_new_num_fmt_index) as specified in the unit (string tables; assumed stubs)",
                   "tables hold fewer than 2^31 - 65536 entries (indices are i32)", "Worksheet::set_cell_style stores the index it is given (stub with a ghost map)",
